@@ -4,8 +4,8 @@
    [as_good mx a b]: a is at least as good as b (a <= b for distances, a >= b for IoU).
    [match_stages] exposes the two loops of get_object_results; [match_core] is its result list.
    All statements quantify over ALL table sizes and ALL tables.  Proofs: Proofs/MatchingGreedy.v. *)
-From Coq Require Import List Bool Arith.
-From PE Require Import Base.QUtil Model.Matching Proofs.MatchingProofs Proofs.MatchingGreedy.
+From Coq Require Import List Bool Arith Sorted.
+From PE Require Import Base.QUtil Model.Matching Proofs.MatchingProofs Proofs.MatchingGreedy Proofs.MatchingArgbest.
 Import ListNotations.
 Open Scope Q_scope.
 
@@ -94,6 +94,19 @@ Theorem C02_compatible_first : forall mx fpv cell ok n m e g g' sc,
 Proof. exact result_compatible_first. Qed.
 Print Assumptions C02_compatible_first.
 
+(* within each stage the best-scoring available pair is taken first: the scores along each stage's
+   pick list never get better *)
+Theorem C02_best_first : forall mx cell ok n m,
+  let s := match_stages mx cell ok n m in
+  Sorted.StronglySorted
+    (fun p q => forall sp sq, masked cell ok (fst p) (snd p) = Some sp -> masked cell ok (fst q) (snd q) = Some sq ->
+                              as_good mx sp sq) (st_pairs1 s) /\
+  Sorted.StronglySorted
+    (fun p q => forall sp sq, cell (fst p) (snd p) = Some sp -> cell (fst q) (snd q) = Some sq -> as_good mx sp sq)
+    (st_pairs2 s).
+Proof. intros. apply (stages_scores_sorted mx cell ok n m), match_stages_ok. Qed.
+Print Assumptions C02_best_first.
+
 (* The documented algorithm as a relation that does not commit to any tie-breaking:
      greedy_run mx key es gs ps es' gs'  :=  repeatedly take SOME pair of alive row x alive column
        whose key is not NaN and at least as good as every other alive candidate; stop when every
@@ -123,6 +136,24 @@ Proof.
   apply stages_is_greedy2, match_stages_ok.
 Qed.
 Print Assumptions C02_greedy_unique_without_ties.
+
+(* with ties the model follows numpy: [argbest] is the FIRST occurrence of the best non-NaN value of
+   the flattened (row-major) table of the alive rows x columns -- every earlier cell is strictly worse
+   (or NaN), every later one is not better.  [cells es gs] is that flattened table. *)
+Theorem C02_argbest_first_occurrence : forall mx key es gs e0 g0,
+  argbest mx key es gs = Some (e0, g0) ->
+  exists l1 l2 s,
+    flat_map (fun e => map (fun g => (e, g)) gs) es = l1 ++ (e0, g0) :: l2 /\ key e0 g0 = Some s /\
+    (forall e g s', In (e, g) l1 -> key e g = Some s' -> better mx s s' = true) /\
+    (forall e g s', In (e, g) l2 -> key e g = Some s' -> as_good mx s s').
+Proof. exact argbest_first_best. Qed.
+Print Assumptions C02_argbest_first_occurrence.
+
+(* ... and the loop stops exactly when every alive cell is NaN *)
+Theorem C02_argbest_none_iff_all_nan : forall mx key es gs,
+  argbest mx key es gs = None <-> (forall e g, In e es -> In g gs -> key e g = None).
+Proof. exact argbest_none_iff. Qed.
+Print Assumptions C02_argbest_none_iff_all_nan.
 
 (* MatchingLabelPolicy.is_matchable: an FP-labelled ground truth is matchable with everything;
    DEFAULT needs equal labels, ALLOW_UNKNOWN also accepts an unknown-labelled estimate,
